@@ -2,7 +2,7 @@
 import re
 import panics
 from core import CheckError
-from mirutil import call_name_matches, provenance, bool_switch, edge_dominates, enumerate_paths, closure_upvars
+from mirutil import call_name_matches, provenance, bool_switch, edge_dominates, enumerate_paths, closure_upvars, root_local
 
 LEVEL = "other"
 EXPLANATION = (
@@ -224,11 +224,12 @@ def filter_rule(ck, facts):
     for conds, toks in paths:
         cs = [(d.split("::")[-1], o) for d, o, s_ in conds]
         if ("is_jsonld", True) in cs:
-            tested = [o for d, o in cs if d in ("is_some", "is_none")]
+            # if-form (`q.g().is_some()`) or match-form (`if let Some(g) = q.g()`) of the named-graph test
+            tested = [o for d, o in cs if d in ("is_some", "is_none") or (d == "g" and o in ("Some", "None"))]
             if not tested:
                 missing.append(cs)       # recorded without even asking whether the quad is in a named graph
                 continue
-            if ("is_some", True) in cs or ("is_none", False) in cs:
+            if ("is_some", True) in cs or ("is_none", False) in cs or ("g", "Some") in cs:
                 n_g += 1
                 if not any(x.startswith("const:@graph") for x in toks):
                     missing.append(cs)
@@ -412,6 +413,71 @@ def singleton_rule(ck, facts):
     ck.floor("R12.8", "value-vector closures in is_list_node / is_compound_literal", n, 6)
 
 
+def label_keeping_rule(ck, facts):
+    """R12.9: a blank node that cannot be anonymous is never folded into `@list`.  Folding requires a unique parent
+    (`unique_parent[label]` is Some); process_quads must therefore *poison* the entry (insert None) for (a) a blank node that
+    names a graph and (b) a blank node that is a subject in more than one graph - otherwise the one blank node comes back as two."""
+    fns = facts.find_fns(crate="sophia_jsonld", name_re=r"Engine::<'a, L>::process_quads$")
+    if len(fns) != 1:
+        ck.bad("R12.9", "R12.9@process_quads#anchor", "anchor-missing (%d)" % len(fns))
+        return
+    clos = [c for c in facts.with_closures(fns[0])[1:] if any(call_name_matches(t, r"QuadJsonLdUtil>?::is_jsonld$") for _, t in c.calls())]
+    if len(clos) != 1:
+        ck.bad("R12.9", "R12.9@process_quads#anchor", "anchor-missing: the per-quad closure (%d)" % len(clos), fns[0].loc)
+        return
+    c = clos[0]
+    classes = set()
+    for bi, t in c.calls():
+        if not call_name_matches(t, r"HashMap::<K, V, S, A>::insert$|HashMap::<K, V, S>::insert$") or len(t["args"]) < 3:
+            continue
+        recv = root_local(c, t["args"][0])
+        if not recv or not any(str(p).endswith(":unique_parent") for p in recv[1]):
+            continue
+        v = c.origin(t["args"][2])
+        if not (v[0] == "agg" and v[1].get("vname") == "None"):
+            continue
+        for gb in range(len(c.blocks)):
+            bs = bool_switch(c, gb)
+            if bs and bs[0][0] == "call" and call_name_matches(bs[0][1], r"TermJsonLdUtil>?::is_bnode$|Term>?::is_blank_node$") \
+                    and c.dominates(gb, bi) and bi in c.reachable(bs[1], avoid={bs[2]}):
+                for p in provenance(c, bs[0][1]["args"][0]):
+                    if p[0] == "call":
+                        m = re.search(r"Quad>?::(s|g)$", p[1]["f"].get("name") or "")
+                        if m:
+                            classes.add(m.group(1))
+    missing = {"g": "a blank node that names a graph", "s": "a blank node that is a subject in several graphs"}
+    for k, what in sorted(missing.items()):
+        if k in classes:
+            ck.ok("R12.9", "process_quads poisons unique_parent for %s" % what)
+        else:
+            ck.bad("R12.9", "R12.9@process_quads#label-not-kept:%s" % k, "process_quads never marks %s as having no unique parent: if it is also a "
+                   "list node it is folded into an anonymous @list, and the blank node comes back as two unrelated ones" % what, c.loc)
+
+
+def typed_list_rule(ck, facts):
+    """R12.10: `@list` cannot carry an explicit `rdf:type rdf:List`; a list node with that type may only be folded if the type
+    triple is re-emitted.  is_list_node accepting a third entry `@type: [rdf:List]` (as the W3C algorithm does) drops the quad."""
+    fns = facts.find_fns(crate="sophia_jsonld", name_re=r"^serializer::engine::is_list_node$")
+    if len(fns) != 1:
+        ck.bad("R12.10", "R12.10@is_list_node#anchor", "anchor-missing (%d)" % len(fns))
+        return
+    fn = fns[0]
+    consts = set()
+    for f in facts.with_closures(fn):
+        for b in f.blocks:
+            for st in b["s"]:
+                for m in re.finditer(r"rdf-syntax-ns#List", str(st)):
+                    consts.add("rdf:List")
+            if b["t"]["t"] == "call" and "rdf-syntax-ns#List" in str(b["t"]["args"]):
+                consts.add("rdf:List")
+    if consts:
+        ck.bad("R12.10", "R12.10@is_list_node#typed-list-node-folded", "is_list_node accepts a node with a third entry `@type: [rdf:List]` and the "
+               "node is folded into @list, which cannot convey the type: `_:l rdf:type rdf:List` is dropped (4 quads in, 3 out), "
+               "although the same dataset round-trips with use_rdf_type", fn.loc)
+    else:
+        ck.ok("R12.10", "is_list_node does not accept typed list nodes")
+
+
 def run(ck, facts, tier):
     facts.require_crates(["sophia_jsonld"])
     singleton_rule(ck, facts)
@@ -419,6 +485,8 @@ def run(ck, facts, tier):
     list_suppression_rule(ck, facts)
     filter_rule(ck, facts)
     unique_parent_rule(ck, facts)
+    label_keeping_rule(ck, facts)
+    typed_list_rule(ck, facts)
     fns = [f for f in facts.fns.values() if f.crate == "sophia_jsonld" and re.search(r"jsonld/src/(serializer|util_traits)", f.file)]
     ck.floor("R12.2", "serializer functions", len(fns), 60)
     sites = []
